@@ -54,6 +54,8 @@ KANI_C09 = K.make_engine({'time_control.rs': 'time_control_harness.rs'},
                          [('time_control.rs', 'calculate_time_slice', 'GameTime', 'time_control_contract.txt')],
                          [{'name': 'c09_contract_full_domain', 'timeout': 900, 'what': 'function contract of GameTime::calculate_time_slice over the full i128 x Option<u32> domain, both colours: slice <= mover clock when clock > 100; slice == 0 when clock <= 100 and increment <= 0'},
                           {'name': 'c09_cover_regimes', 'timeout': 900, 'what': 'reachability of the three regimes behind the precondition (vacuity guard)'},
+                          {'name': 'c09_bounded_small_clock', 'timeout': 900, 'bounded': 'mover clock 101..=355 ms, movestogo absent or 1..=3, all other fields arbitrary i128',
+                           'what': '|slice*mtg*10 - 8*(clock-100)| <= 10*mtg on the small-clock band'},
                           {'name': 'c09_bounded_eighty_percent', 'timeout': 1800, 'tier': 'thorough', 'bounded': 'mover clock in i16, movestogo absent or 1..=64, all other fields arbitrary i128',
                            'what': '|slice*mtg*10 - 8*(clock-100)| <= 10*mtg, i.e. within 1 ms of 0.8*(clock-100)/mtg; independent of the other side'}])
 KANI_C15 = K.make_engine({'board.rs': 'board_harness.rs'}, [],
@@ -67,6 +69,10 @@ KANI_C04 = K.make_engine({'uci.rs': 'uci_harness.rs'}, [],
                           {'name': 'c04_text_corner_a1', 'timeout': 3000, 'what': 'str::contains("a1") <=> the move starts or ends on a1 (text_facts corner conjunct)'},
                           {'name': 'c04_text_corner_h1', 'timeout': 3000, 'what': 'str::contains("h1") <=> the move starts or ends on h1 (text_facts corner conjunct)'},
                           {'name': 'c04_text_castle_strings', 'timeout': 3000, 'what': 'equality with the four castling strings (text_facts conjuncts 9-12)'}])
+
+def CROSS(what):
+    return {'run': H.make_bounded_engine('cross-check on the unchanged tree: ' + what, 'seeded random: curated + random legal positions, random walks by the oracle', 0, 240), 'tier': 'thorough'}
+
 
 PROPS = {
     'C09': {
@@ -88,6 +94,7 @@ PROPS = {
     },
     'C01': {
         'verus': [MOVEGEN],
+        'engines': [CROSS("generate_moves(AllMoves) as a set == the oracle's legal moves, also from engine-produced parents")],
         'whitelist': WL_MOVEGEN, 'trusted_base': TB_COMMON, 'dropped': DROPPED_COMMON,
         'explanation': 'wip', 'assumptions': [], 'not_decided': [],
     },
@@ -99,11 +106,13 @@ PROPS = {
     },
     'C02': {
         'verus': [MOVEGEN],
+        'engines': [CROSS('every successor of generate_moves (both modes, chains of depth 2) == oracle apply(move); printed text == move')],
         'whitelist': WL_MOVEGEN, 'trusted_base': TB_COMMON, 'dropped': DROPPED_COMMON,
         'explanation': 'wip', 'assumptions': [], 'not_decided': [],
     },
     'C13': {
         'verus': [MOVEGEN],
+        'engines': [CROSS('generate_moves(CapturesOnly) == oracle legal captures; capture chains of depth 2')],
         'whitelist': WL_MOVEGEN, 'trusted_base': TB_COMMON, 'dropped': DROPPED_COMMON,
         'explanation': 'wip', 'assumptions': [], 'not_decided': [],
     },
@@ -119,6 +128,7 @@ PROPS = {
     },
     'C14': {
         'verus': [{'name': 'eval', 'build': b_eval, 'rlimit': 60}],
+        'engines': [CROSS('mirror / negation / placement-only / bound on random placements')],
         'whitelist': WL_ATTACK,
         'trusted_base': TB_COMMON,
         'dropped': DROPPED_COMMON,
@@ -138,6 +148,7 @@ PROPS = {
     },
     'C06': {
         'verus': [{'name': 'attack', 'build': b_attack, 'rlimit': 30}],
+        'engines': [CROSS('is_check == oracle attack test on arbitrary placements with one king per side')],
         'whitelist': WL_ATTACK,
         'trusted_base': TB_COMMON,
         'dropped': DROPPED_COMMON,
